@@ -79,6 +79,7 @@ inductive CellClass (V : Type) where
   | value (v : V)      -- the text denotes `v`
   | empty              -- nothing but blanks
   | garbage            -- not a number of this type
+  | outOfRange         -- an integer the column's dtype cannot hold
   deriving Repr, DecidableEq
 
 /-- the validation-mode table: `some (stored value, validity flag)` or `none` = the import raises -/
@@ -90,6 +91,24 @@ def numericCell {V} (mode : Mode) (invalid : V) : CellClass V → Option (V × B
   | .garbage => match mode with
     | .relaxed => some (invalid, false)
     | _ => none
+  | .outOfRange => none
+
+/-- one more row in front of a column; `none` (the import raises) is contagious -/
+def consCell {V} : Option (V × Bool) → Option (List V × List Bool) → Option (List V × List Bool)
+  | some (v, f), some (vs, fs) => some (v :: vs, f :: fs)
+  | _, _ => none
+
+/-- a whole column: values and validity flags row by row, or `none` when some cell makes the import raise -/
+def numericColumn {V} (mode : Mode) (invalid : V) : List (CellClass V) → Option (List V × List Bool)
+  | [] => some ([], [])
+  | k :: ks => consCell (numericCell mode invalid k) (numericColumn mode invalid ks)
+
+/-- class of a cell of a `bool` column -/
+def boolClass (cell : Bytes) : CellClass Bool :=
+  if trimBlank cell = [] then .empty
+  else match boolValue (trimBlank cell) with
+    | some v => .value (v == 1)
+    | none => .garbage
 
 /-! ## fixed strings -/
 
